@@ -33,6 +33,26 @@ type scalarEval struct {
 	intVals map[ssa.Value]int64
 	// integer fields of local structs written during the walk (counts carried in a small struct)
 	mem map[memCell]int64
+	// the operand each phi took on the last walk
+	lastSel map[*ssa.Phi]ssa.Value
+}
+
+// ret: result k of the reached return as the last walk selected it (a function in single-exit style returns a merged
+// variable; on the walked path it is one particular operand).
+func (s *scalarEval) ret(r *ssa.Return, k int) ssa.Value {
+	v := core.RetOp(r, k)
+	for i := 0; i < 8; i++ {
+		p, ok := stripConv(v).(*ssa.Phi)
+		if !ok {
+			return v
+		}
+		nv, has := s.lastSel[p]
+		if !has {
+			return v
+		}
+		v = nv
+	}
+	return v
 }
 
 type memCell struct {
@@ -106,6 +126,7 @@ func (s *scalarEval) walk(env scalarEnv) (*ssa.Return, []*ssa.BasicBlock, string
 	vals := map[ssa.Value]bool{}
 	// the operand each phi took on the walked path (a value merged from two computations is, on this path, one of them)
 	phiSel := map[*ssa.Phi]ssa.Value{}
+	s.lastSel = phiSel
 	sel := func(v ssa.Value) ssa.Value {
 		for i := 0; i < 8; i++ {
 			p, ok := stripConv(v).(*ssa.Phi)
